@@ -46,6 +46,7 @@ type letBinding struct{ name, sort, def string }
 type scope struct {
 	lets   []letBinding
 	locals map[string]bool // the bound variable and the let names that depend on it
+	consed map[string]string
 }
 
 // Gen accumulates one SMT-LIB script: declarations, shared definitions and
@@ -123,6 +124,18 @@ func (g *Gen) Fresh(sort, def string) string {
 			return n
 		}
 	}
+	if !ground {
+		// let names are numbered within the scope (canonical text, see QuantDepth)
+		s := g.scopes[len(g.scopes)-1]
+		if n, ok := s.consed[def]; ok {
+			return n
+		}
+		name := fmt.Sprintf("l!%d!%d", len(g.scopes), len(s.lets))
+		s.consed[def] = name
+		s.lets = append(s.lets, letBinding{name, sort, def})
+		s.locals[name] = true
+		return name
+	}
 	g.n++
 	name := fmt.Sprintf("x%d", g.n)
 	if !ground {
@@ -198,8 +211,11 @@ func (g *Gen) Assume(term string) {
 
 func (g *Gen) InQuant() bool { return len(g.scopes) > 0 }
 
+// QuantDepth is the number of open quantifier scopes.
+func (g *Gen) QuantDepth() int { return len(g.scopes) }
+
 func (g *Gen) PushScope(bound ...string) {
-	sc := &scope{locals: map[string]bool{}}
+	sc := &scope{locals: map[string]bool{}, consed: map[string]string{}}
 	for _, b := range bound {
 		sc.locals[b] = true
 	}
